@@ -123,6 +123,9 @@ fn check_interleavings(ctx: &Ctx, kinds: &[Kind], st: &mut Stats) {
                 }
                 let mut reported = false;
                 for order in interleavings(n, len) {
+                    if st.interleavings % 30_011 == 5 {
+                        ctx.sample(json!({"sketcher": kind.name, "instances": n, "same_input": same_input, "call_order": order}));
+                    }
                     st.interleavings += 1;
                     st.calls += order.len() as u64;
                     let obs = run_interleaving(kind, &scripts, &order);
